@@ -98,10 +98,18 @@ type Event struct {
 	Nth   int    `json:"nth,omitempty"` // occurrence index of (kind, path) within its phase
 }
 
+// Problem is one disagreement between a gengo accessor and go/types.
+type Problem struct {
+	Oracle string            `json:"oracle"`
+	Class  string            `json:"class"`
+	Detail string            `json:"detail"`
+	Facts  map[string]string `json:"facts,omitempty"`
+}
+
 // PkgReport is the C13 report of one loaded package.
 type PkgReport struct {
-	Path     string   `json:"path"`
-	Problems []string `json:"problems,omitempty"`
+	Path     string    `json:"path"`
+	Problems []Problem `json:"problems,omitempty"`
 	// Digest of accessor results in a canonical rendering (for U5).
 	Digest string `json:"digest"`
 	NTypes int    `json:"n_types"`
